@@ -303,7 +303,7 @@ func c20(x *Ctx) {
 				n := eng.CalleeName(dc)
 				return strings.HasSuffix(n, "msgp.ReadIntfBytes") || strings.HasSuffix(n, ").valueAny")
 			}
-			c.Decide(x.mustDerive(a[1], decoded), r5, fn+"/Set", x.Pos(in), "the decoder's result is memoized unchanged",
+			c.Decide(x.mustDeriveOpt(a[1], decoded, true), r5, fn+"/Set", x.Pos(in), "the decoder's result is memoized unchanged",
 				"the value memoized for a client field in "+fn+" is not the decoder's result as is (it passes through another function or conversion): since re-encoding prefers memoized values, Honeycomb receives the transformed value (another msgpack type, a truncated number) instead of what the client sent")
 		})
 	}
